@@ -621,4 +621,227 @@ Section Target.
     assert (Hi2 : incl es' es) by (intros x; apply Permutation_in; now apply Permutation_sym).
     split; intros [[Hk|Hk] HQ]; (split; [auto|eapply Qr_incl; [apply voters_incl|exact HQ]; assumption]).
   Qed.
+
+  (* ---------- the fetch path: other replicas can provide b ----------
+     A vote naming a block that is not known locally waits for the next proposal; if that proposal is not
+     b's own, CollectVote retries through blockchain.Get, which fetches b.  With b obtainable
+     ([Hfetch]) no vote for b is ever lost and the exactness statement holds for EVERY sequence, b becoming
+     known either by its own proposal or by the first proposal handled while a vote naming b waits. *)
+  Hypothesis Hfetch : local_get (c_remote c) (b_hash b) = Some b.
+
+  Definition names_b (v : vote) : bool := N.eqb (v_hash v) (b_hash b).
+
+  (* kn: b is known; w: (while unknown) a vote naming b waits for the next proposal *)
+  Fixpoint becomes_known (kn w : bool) (es : list event) : bool :=
+    match es with
+    | [] => kn
+    | EVote v :: r => becomes_known kn (w || names_b v) r
+    | EPropose x :: r => becomes_known (kn || N.eqb (b_hash x) (b_hash b) || w) false r
+    | EHigh _ :: r => becomes_known kn w r
+    end.
+
+  Lemma becomes_known_true : forall es w, becomes_known true w es = true.
+  Proof. induction es as [|e es IH]; intros w; cbn; [reflexivity|]. destruct e; cbn; auto. Qed.
+
+  (* the state while the delayed votes are being re-delivered and b is still unknown *)
+  Record U0 (st : vstate) : Prop := mkU0 {
+    z_high : (st_high st < b_view b)%N;
+    z_cons : Forall cons (st_store st);
+    z_bok : buckets_ok c (st_verified st);
+    z_unknown : local_get (st_store st) (b_hash b) = None;
+    z_empty : lookup (st_verified st) (b_hash b) = [];
+    z_def : st_deferred st = [] }.
+
+  Lemma collect_U0_foreign : forall st v st' o, U0 st -> v_hash v <> b_hash b ->
+    collect_vote c st v true = (st', o) -> ~ has_qc o /\ U0 st'.
+  Proof.
+    intros st v st' o HU Hd H. unfold collect_vote in H. cbn [negb] in H.
+    destruct (get c (st_store st) (v_hash v)) as [[x|] s'] eqn:Eg.
+    - destruct (get_cons _ _ _ _ Eg) as [Hx [e [Es He]]]. subst s'.
+      assert (Hun : local_get (st_store st ++ e) (b_hash b) = None).
+      { rewrite local_get_app_none by apply HU. unfold get in Eg.
+        destruct (local_get (st_store st) (v_hash v)) eqn:E1.
+        - inversion Eg as [[E2 E3]]. apply (f_equal (@length binfo)) in E3. rewrite app_length in E3.
+          destruct e; [reflexivity|cbn in E3; lia].
+        - destruct (local_get (c_remote c) (v_hash v)) eqn:E2; inversion Eg as [[E3 E4]]; subst.
+          apply app_inv_head in E4. subst e. unfold local_get. cbn.
+          destruct (N.eqb_spec (b_hash x) (b_hash b)); [congruence|reflexivity]. }
+      set (st2 := mkSt (st_store st ++ e) (st_high st) (st_deferred st) (st_verified st)) in *.
+      assert (HU2 : U0 st2).
+      { destruct HU as [H1 H2 H3 H4 H5 H6]. constructor; cbn; auto. apply Forall_app. now split. }
+      destruct (N.leb (b_view x) (st_high st)).
+      + inversion H; subst. split; [apply has_qc_nil|assumption].
+      + destruct (vc_frame _ _ _ _ _ _ H) as [E1 [E2 E3]].
+        destruct (vc_ok c Hpatched _ _ _ _ _ H (z_bok _ HU2) Hx) as [Hb Hqs].
+        split.
+        * intros [q [Hi Hh]]. rewrite Forall_forall in Hqs. destruct (Hqs q Hi) as [_ [Eh _]]. congruence.
+        * assert (El2 : lookup (st_verified st') (b_hash b) = []).
+          { destruct (vc_other _ _ _ _ _ (b_hash b) H Hd) as [Ea|[_ Ea]]; [|assumption].
+            rewrite Ea. apply HU2. }
+          destruct HU2 as [H1 H2 H3 H4 H5 H6]. constructor; try rewrite E1; try rewrite E2; try rewrite E3; auto.
+    - inversion H; subst. split; [apply has_qc_nil|assumption].
+  Qed.
+
+  Lemma K_of_U0 : forall st, U0 st ->
+    K (mkSt (st_store st ++ [b]) (st_high st) (st_deferred st) (st_verified st)) [].
+  Proof.
+    intros st [H1 H2 H3 H4 H5 H6]. constructor; cbn; auto.
+    - apply Forall_app. split; [assumption|]. constructor; [now intros _|constructor].
+    - unfold known. cbn. rewrite local_get_app_none by assumption. unfold local_get. cbn. now rewrite N.eqb_refl.
+    - rewrite H6. constructor.
+    - rewrite H5. cbn. tauto.
+    - rewrite H5. cbn. lia.
+  Qed.
+
+  Lemma collect_U0_target : forall st v st' o, U0 st -> v_hash v = b_hash b ->
+    collect_vote c st v true = (st', o) ->
+    (has_qc o /\ Qr (valid_for v)) \/ (~ has_qc o /\ K st' (valid_for v)).
+  Proof.
+    intros st v st' o HU Hh H. unfold collect_vote in H. cbn [negb] in H.
+    unfold get in H. rewrite Hh, (z_unknown _ HU), Hfetch in H.
+    assert (Hhi : N.leb (b_view b) (st_high st) = false) by (apply N.leb_gt; apply HU).
+    rewrite Hhi in H. pose proof (K_of_U0 _ HU) as HK.
+    destruct (vc_target _ _ _ _ _ HK Hh H) as [R|R]; cbn [app] in R; auto.
+  Qed.
+
+  Lemma names_b_false : forall v, names_b v = false -> v_hash v <> b_hash b.
+  Proof. intros v H E. unfold names_b in H. rewrite E, N.eqb_refl in H. discriminate. Qed.
+  Lemma names_b_true : forall v, names_b v = true -> v_hash v = b_hash b.
+  Proof. intros v H. now apply N.eqb_eq. Qed.
+
+  Lemma feed_U0 : forall vs st st' o, U0 st -> feed c st vs = (st', o) ->
+    if existsb names_b vs
+    then (has_qc o /\ Qr (vote_voters vs)) \/ (~ has_qc o /\ K st' (vote_voters vs))
+    else ~ has_qc o /\ U0 st'.
+  Proof.
+    induction vs as [|v vs IH]; cbn [feed existsb vote_voters flat_map]; intros st st' o HU H.
+    - inversion H; subst. split; [apply has_qc_nil|assumption].
+    - destruct (collect_vote c st v true) as [st1 o1] eqn:E1.
+      destruct (feed c st1 vs) as [st2 o2] eqn:E2. inversion H; subst.
+      destruct (names_b v) eqn:En; cbn [orb].
+      + destruct (collect_U0_target _ _ _ _ HU (names_b_true _ En) E1) as [[Hq1 HQ]|[Hn1 HK1]].
+        * left. split; [apply has_qc_app; now left|]. eapply Qr_incl; [|exact HQ]. apply incl_appl, incl_refl.
+        * destruct (feed_K _ _ _ _ _ HK1 E2) as [[Hq2 HQ]|[Hn2 HK2]].
+          -- left. split; [apply has_qc_app; now right|assumption].
+          -- right. split; [|assumption]. intros Hq. apply has_qc_app in Hq. tauto.
+      + destruct (collect_U0_foreign _ _ _ _ HU (names_b_false _ En) E1) as [Hn1 HU1].
+        rewrite (valid_for_other v (names_b_false _ En)). cbn [app].
+        specialize (IH _ _ _ HU1 E2). destruct (existsb names_b vs).
+        * destruct IH as [[Hq2 HQ]|[Hn2 HK2]].
+          -- left. split; [apply has_qc_app; now right|assumption].
+          -- right. split; [|assumption]. intros Hq. apply has_qc_app in Hq. tauto.
+        * destruct IH as [Hn2 HU2]. split; [|assumption]. intros Hq. apply has_qc_app in Hq. tauto.
+  Qed.
+
+  (* U with the waiting flag *)
+  Definition UW (st : vstate) (P : list rid) (w : bool) : Prop :=
+    U st P /\ existsb names_b (st_deferred st) = w.
+
+  Lemma existsb_app_single : forall (f : vote -> bool) l v, existsb f (l ++ [v]) = existsb f l || f v.
+  Proof. intros. rewrite existsb_app. cbn. now rewrite orb_false_r. Qed.
+
+  Lemma vote_voters_none : forall vs, existsb names_b vs = false -> vote_voters vs = [].
+  Proof.
+    intros vs H. apply vote_voters_other. apply Forall_forall. intros v Hv.
+    apply names_b_false. destruct (names_b v) eqn:E; [|reflexivity].
+    assert (existsb names_b vs = true) by (apply existsb_exists; now exists v). congruence.
+  Qed.
+
+  Lemma step_UW : forall st P w e st' o, UW st P w -> ev_ok e -> step c st e = (st', o) ->
+    let kn' := match e with EPropose x => N.eqb (b_hash x) (b_hash b) || w | _ => false end in
+    let w' := match e with EVote v => w || names_b v | EPropose _ => false | EHigh _ => w end in
+    (has_qc o /\ Qr (P ++ ev_voters e) /\ kn' = true) \/
+    (~ has_qc o /\ ((K st' (P ++ ev_voters e) /\ kn' = true) \/ (UW st' (P ++ ev_voters e) w' /\ kn' = false))).
+  Proof.
+    intros st P w e st' o [HU Hw] He H. subst w. destruct e as [v|x|x]; cbn [step ev_voters] in *; cbn zeta.
+    - right. destruct (collect_U _ _ _ _ _ HU H) as [Hn HU']. split; [assumption|]. right. split; [|reflexivity].
+      split; [assumption|]. unfold collect_vote in H. cbn [negb] in H.
+      destruct (local_get (st_store st) (v_hash v)) as [y|] eqn:El.
+      + assert (En : names_b v = false).
+        { unfold names_b. destruct (N.eqb_spec (v_hash v) (b_hash b)) as [E|E]; [|reflexivity].
+          rewrite E, (u_unknown _ _ HU) in El. discriminate. }
+        rewrite En, orb_false_r.
+        destruct (N.leb (b_view y) (st_high st)); [inversion H; subst; reflexivity|].
+        destruct (vc_frame _ _ _ _ _ _ H) as [_ [_ E3]]. now rewrite E3.
+      + inversion H; subst. cbn. now rewrite existsb_app_single.
+    - rewrite app_nil_r.
+      destruct (N.eqb_spec (b_hash x) (b_hash b)) as [Ex|Ex]; cbn [orb].
+      + (* b's own proposal *)
+        apply He in Ex. subst x.
+        destruct (step_U _ _ (EPropose b) _ _ HU He eq_refl H) as [[Hq [HQ _]]|[Hn [[HK _]|[_ Hb]]]];
+          cbn [ev_voters] in *; rewrite ?app_nil_r in *.
+        * left. auto.
+        * right. split; [assumption|]. left. auto.
+        * exfalso. apply Hb. reflexivity.
+      + (* a foreign proposal: the delayed votes are re-delivered through the fetch *)
+        destruct (store_block_cons (st_store st) x He) as [e [Es Hce]]. rewrite Es in H.
+        assert (Hun : local_get (st_store st ++ e) (b_hash b) = None).
+        { rewrite local_get_app_none by apply HU. unfold store_block in Es.
+          destruct (local_get (st_store st) (b_hash x)).
+          - apply (f_equal (@length binfo)) in Es. rewrite app_length in Es. destruct e; [reflexivity|cbn in Es; lia].
+          - apply app_inv_head in Es. subst e. unfold local_get. cbn.
+            destruct (N.eqb_spec (b_hash x) (b_hash b)); [contradiction|reflexivity]. }
+        assert (HU0 : U0 (mkSt (st_store st ++ e) (st_high st) [] (st_verified st))).
+        { destruct HU as [H1 H2 H3 H4 H5 H6]. constructor; cbn; auto. apply Forall_app. now split. }
+        pose proof (feed_U0 _ _ _ _ HU0 H) as HF. destruct (existsb names_b (st_deferred st)) eqn:Hw.
+        * destruct HF as [[Hq HQ]|[Hn HK]].
+          -- left. split; [assumption|]. split; [|reflexivity]. eapply Qr_incl; [|exact HQ]. intros i. apply (u_set _ _ HU).
+          -- right. split; [assumption|]. left. split; [|reflexivity].
+             eapply K_equiv; [|exact HK]. intros i. apply (u_set _ _ HU).
+        * destruct HF as [Hn HU1]. right. split; [assumption|]. right. split; [|reflexivity].
+          assert (Hp0 : forall i, ~ In i P).
+          { intros i Hi. apply (u_set _ _ HU) in Hi. rewrite (vote_voters_none _ Hw) in Hi. destruct Hi. }
+          destruct HU1 as [H1 H2 H3 H4 H5 H6]. split.
+          -- constructor; auto. intros i. rewrite H6. cbn. split; [intros []|intros Hi; now apply Hp0 in Hi].
+          -- now rewrite H6.
+    - destruct (step_U _ _ (EHigh x) _ _ HU He I H) as [[_ [_ Hb]]|[Hn [[_ Hb]|[HU1 _]]]]; try discriminate Hb.
+      right. split; [assumption|]. right. split; [|reflexivity]. split; [assumption|].
+      inversion H; subst. reflexivity.
+  Qed.
+
+  Lemma run_UW : forall es st P w st' outs, UW st P w -> Forall ev_ok es ->
+    run c st es = (st', outs) ->
+    (emitted outs <-> (becomes_known false w es = true /\ Qr (P ++ voters es))).
+  Proof.
+    induction es as [|e es IH]; cbn [run]; intros st P w st' outs HU Hok H.
+    - inversion H; subst. cbn. split; [intros [o [[] _]]|intros [Hf _]; discriminate].
+    - destruct (step c st e) as [st1 o] eqn:E1. destruct (run c st1 es) as [st2 os] eqn:E2.
+      inversion H; subst. inversion Hok; subst. rewrite emitted_cons, voters_cons, app_assoc.
+      pose proof (step_UW _ _ _ _ _ _ HU H2 E1) as HS. cbn zeta in HS.
+      assert (Hbk : becomes_known false w (e :: es) =
+                    becomes_known (match e with EPropose x => N.eqb (b_hash x) (b_hash b) || w | _ => false end)
+                                  (match e with EVote v => w || names_b v | EPropose _ => false | EHigh _ => w end) es).
+      { destruct e; reflexivity. }
+      rewrite Hbk.
+      destruct HS as [[Hq [HQ Hk]]|[Hn [[HK1 Hk]|[HU1 Hk]]]]; rewrite Hk.
+      + rewrite becomes_known_true. split; [intros _|now left]. split; [reflexivity|].
+        eapply Qr_incl; [|exact HQ]. apply incl_appl, incl_refl.
+      + rewrite becomes_known_true. pose proof (run_K _ _ _ _ _ HK1 H3 E2) as HR. split.
+        * intros [Hc|He]; [contradiction|]. split; [reflexivity|now apply HR].
+        * intros [_ Hr]. right. now apply HR.
+      + pose proof (IH _ _ _ _ _ HU1 H3 E2) as HR. split.
+        * intros [Hc|He]; [contradiction|]. now apply HR.
+        * intros Hr. right. now apply HR.
+  Qed.
+
+  Theorem qc_iff_quorum_fetch : forall store high es st' outs,
+    Forall cons store -> (high < b_view b)%N -> Forall ev_ok es ->
+    run c (init store high) es = (st', outs) ->
+    (emitted_for outs <->
+     (becomes_known (match local_get store (b_hash b) with Some _ => true | None => false end) false es = true
+      /\ quorum_arrived es)).
+  Proof.
+    intros store high es st' outs Hc Hh Hok H.
+    rewrite emitted_for_iff, quorum_arrived_Qr.
+    destruct (local_get store (b_hash b)) as [x|] eqn:E.
+    - assert (Ex : x = b).
+      { apply local_get_hash in E. destruct E as [Eh Ei]. rewrite Forall_forall in Hc. now apply Hc. }
+      subst x.
+      assert (HK : K (init store high) []).
+      { constructor; cbn; auto; try (now constructor); try tauto; try lia. }
+      rewrite (run_K _ _ _ _ _ HK Hok H), becomes_known_true. cbn [app]. tauto.
+    - assert (HU : UW (init store high) [] false).
+      { split; [|reflexivity]. constructor; cbn; auto; try (now constructor); try tauto. }
+      rewrite (run_UW _ _ _ _ _ _ HU Hok H). cbn [app]. tauto.
+  Qed.
 End Target.
